@@ -392,8 +392,47 @@ def on_key(p, r, exc, acc):
     acc.sample(dict(cache_key=r["spelling"], values=r["pairs"], keys=r["got"][1]))
 
 
+# ------------------------------------------------------------------ the Beaker plugin with the real Beaker
+def h_beakerargs(p):
+    return dict(cfg=dict(section=["plain", "timeout", "region"][p.choose(3, "section_configuration")],
+                         dir_level=["memory", "none", "template", "page", "section"][p.choose(5, "cache_dir_given_at")],
+                         module_directory=bool(p.choose(2, "module_directory"))))
+
+
+def on_beakerargs(p, r, exc, acc):
+    from symx import realproc
+    res = realproc.call("beaker_probe", r["cfg"])
+    acc.replayed += 1
+    acc.tags["ran"] += 1
+    if res is None or isinstance(res, str):
+        acc.counts[res or "Beaker is not installed"] += 1
+        return
+    acc.vcs += 2
+    if res["outputs"] != res["want_outputs"]:
+        acc.candidate(kind="beaker-replays-predecessor", input=dict(beaker=r["cfg"]), detail="outputs %r, expected %r" % (res["outputs"], res["want_outputs"]))
+    elif res["want_dirs"] is not None and res["dirs"] != res["want_dirs"]:
+        acc.candidate(kind="beaker-cache-directory", input=dict(beaker=r["cfg"]), detail="cache files under %r, configured %r" % (res["dirs"], res["want_dirs"]))
+    acc.sample(dict(r["cfg"], outputs=res["outputs"], cache_files_in=res["dirs"]))
+
+
+
 def make_replay(c):
     i = c["input"] or {}
+    if "beaker" in i:
+        body = """
+sys.path.insert(0, "/verif")
+CASE = __CASE__
+from props.realops import beaker_probe
+res = beaker_probe(CASE["beaker"])
+print("configuration:", CASE["beaker"]); print("outputs (render, render, render after the template was replaced):", res["outputs"], " expected", res["want_outputs"])
+print("cache files under:", res["dirs"], " configured:", res["want_dirs"])
+bad = None
+if res["outputs"] != res["want_outputs"]: bad = "a template replaced under its URI replays its predecessor's cached output"
+elif res["want_dirs"] is not None and res["dirs"] != res["want_dirs"]: bad = "the cache directory given at the innermost level is not the one the backend writes to"
+print("VIOLATED: " + bad if bad else "HOLDS")
+sys.exit(1 if bad else 0)
+""".replace("__CASE__", repr(i))
+        return (c["kind"], body, repr(sorted(i["beaker"].items(), key=str)))
 
     if "inherit_ops" in i or "cache_key" in i:
         body = """
@@ -496,6 +535,8 @@ def run(check, tier):
     for n in range(0, {"quick": 2, "thorough": 4}[tier] + 1):
         jobs.append(("C17-inherit-%d" % n, h_inherit(n), on_inherit, "cached defs / block of a base template and two templates inheriting it: render, %d solver-chosen operations, two renders" % n,
                      dict(ops=n, operations=INH_OPS), ("ran",)))
+    jobs.append(("C17-beaker", h_beakerargs, on_beakerargs, "the Beaker plugin with the real Beaker: section configured plain / timeout / region, cache directory "
+                 "given at no / Template / <%page> / section level or memory, module directory on / off; a template replaced under its URI", dict(), ("ran",)))
     jobs.append(("C17-key", h_key, on_key, "cache_key built from several pieces x two solver-chosen value pairs", dict(spellings=KEY_SPELLINGS, values=KEY_VALUES), ("ran",)))
     jobs.append(("C17-ctx", h_ctx, on_ctx, "pass_context backend over 2-3 renders with solver-chosen contexts", dict(), ("ran",)))
     jobs.append(("C17-two", h_two, on_two, "two templates whose URIs differ in one solver-chosen character share a backend", dict(), ("ran",)))
